@@ -56,6 +56,13 @@ pub fn allocated_set(snap: &Snapshot) -> Result<BTreeSet<(u32, u32)>, String> {
 
 /// `pins`: roots the harness recorded when readers / ephemeral savepoints were created.
 pub fn account(db: &Database, pins: &[(String, Root)]) -> Result<Acct, String> {
+    account_opts(db, pins, false)
+}
+
+/// `leak_allowed`: the harness itself made a panic unwind through a live write transaction in this
+/// session (redb leaks that transaction's pages until the next repair, by design); pages that are
+/// allocated and unowned are then counted instead of reported. Every other clause still applies.
+pub fn account_opts(db: &Database, pins: &[(String, Root)], leak_allowed: bool) -> Result<Acct, String> {
     let snap = db.verif_snapshot();
     if snap.tracker.live_write_transaction.is_some() {
         return Err("machinery: accounting requested while a write transaction is live".into());
@@ -139,7 +146,7 @@ pub fn account(db: &Database, pins: &[(String, Root)]) -> Result<Acct, String> {
     }
     // completeness
     for u in &a {
-        if !owner.contains_key(u) {
+        if !owner.contains_key(u) && !leak_allowed {
             return Err(format!(
                 "leak: page r{}.{} is allocated but neither reachable from the current roots nor recorded as pending free",
                 u.0, u.1
